@@ -191,3 +191,11 @@ func (h *Handle) VerifSetSendCounter(v uint64) bool {
 	h.ss.count = v
 	return true
 }
+
+// VerifSealWithKey builds a well-formed transport (or control) packet for a session id and counter under a key
+// of the caller's choice, with the package's own sealing routine: what an attacker can compute for keys it
+// can guess (all-zero, all-ones, ...).
+func VerifSealWithKey(id [4]byte, counter uint64, key [KeyLen]byte, mt MessageType, payload []byte) ([]byte, error) {
+	ss := &SessionState{sessionID: SessionID(id), count: counter}
+	return ss.sealPacketLocked(mt, payload, &key)
+}
